@@ -401,7 +401,9 @@ def main(prop, tier):
     # ---- leg A
     # C02: the full numeric product, shallow trees; C03/C18: lean alphabet, trees two windows deep
     rich = "TRUE" if prop == "C02" else "FALSE"
-    items = (3 if thorough else 2) if prop == "C02" else (4 if thorough else 3)
+    # measured: rich/3 items = 594 M transitions (27 min), lean/4 items = 267 M (13 min): the thorough
+    # tier of C02 therefore runs rich/2 on both root alignments plus lean/3, C03/C18 lean/4
+    items = 2 if prop == "C02" else (4 if thorough else 3)
     als = "{0, 1}" if prop == "C02" or thorough else "{0}"
     cfg = MC.format(items=items, als=als, rich=rich) + "VIEW View\n" + "".join(f"INVARIANT {i}\n" for i in INVS[prop])
     res = tlc.run("MemoryMap_MC", cfg, timeout=3000)
@@ -410,6 +412,13 @@ def main(prop, tier):
         raise common.MachineryError("MemoryMap specification violates its own properties: "
                                     + str(res.assert_payload or res.errors) + res.raw[-2000:])
     run.add_tlc(res, f"MemoryMap_MC MaxItems={items} RootAls={als} Rich={rich}: {', '.join(INVS[prop])} + per-call assertions")
+    if prop == "C02" and thorough:
+        cfg3 = MC.format(items=3, als="{0, 1}", rich="FALSE") + "VIEW View\n" + "".join(f"INVARIANT {i}\n" for i in INVS[prop])
+        res3 = tlc.run("MemoryMap_MC", cfg3, timeout=3000)
+        tlc.require_ok(res3, "MemoryMap_MC lean/3")
+        if not res3.ok:
+            raise common.MachineryError("MemoryMap specification violates its own properties: " + res3.raw[-2000:])
+        run.add_tlc(res3, "MemoryMap_MC MaxItems=3 Rich=FALSE (trees two windows deep)")
     w = tlc.run("MemoryMap_MC", MC.format(items=3, als="{0}", rich="FALSE") + f"VIEW View\nINVARIANT {WITNESS[prop]}\n",
                 timeout=900)
     if w.violated != WITNESS[prop]:
